@@ -3,6 +3,10 @@
 #   rel-small | dev-small | rel-real | dev-real
 set -e
 cfg="$1"
+if [ "$cfg" = "ocmc" ]; then
+  cd /verif/engines/ocmc && CARGO_NET_OFFLINE=true CARGO_TARGET_DIR=/verif/target/ocmc cargo build --offline --release 2>&1
+  exit $?
+fi
 if [ "$cfg" = "dwmc" ]; then
   cd /verif/engines/dwmc && CARGO_NET_OFFLINE=true CARGO_TARGET_DIR=/verif/target/dwmc cargo build --offline --release 2>&1
   exit $?
